@@ -78,6 +78,7 @@ async def run_scenario(sc: dict, loop) -> dict:
     for q in qs:
         world.mb.queues[f"q{q}"].processing = RecHeld(log)
     world.mb.round_trip = sc.get("round_trip", 0.0)
+    world.mb.pause_round_trip = sc.get("pause_round_trip", 0.0)
     durs = {j["id"]: j for j in sc["jobs"]}
     running = {"n": 0, "max": 0}
 
@@ -163,10 +164,26 @@ async def run_scenario(sc: dict, loop) -> dict:
     with Probes(log):
         arr = asyncio.ensure_future(arrivals())
         stp = asyncio.ensure_future(stopper())
+        run_task = asyncio.ensure_future(worker.run())
+        spun = {}
+        inner_hook = loop.step_hook
+
+        def guard(lp):
+            # a worker that never stops polls without letting (virtual) time pass: end the run after a million loop iterations
+            if inner_hook is not None:
+                inner_hook(lp)
+            if "x" not in spun and lp.iteration - it0 > 1_000_000:
+                spun["x"] = True
+                run_task.cancel()
+        loop.step_hook = guard
         try:
-            runner = await asyncio.wait_for(worker.run(), sc.get("run_timeout", 600))
+            runner = await asyncio.wait_for(run_task, sc.get("run_timeout", 600))
         except asyncio.TimeoutError:
             err = "run() did not return within the virtual time budget"
+        except asyncio.CancelledError:
+            if "x" not in spun:
+                raise
+            err = "run() did not return within a million loop iterations"
         except Exception as e:  # noqa: BLE001
             err = repr(e)
         t_return = CLOCK.now_us()
